@@ -24,6 +24,11 @@
 //!             text itself
 //!   soup      random token sequences
 //!   unicode   random characters, including non-ASCII blanks, letters, digits
+//!   depth     1 inside N parentheses / after N `!` / inside N nested `?:`,
+//!             N = 100 .. 100000, each evaluated in a child process (this binary
+//!             re-executed with `--opt deep=KIND:N`) so that a stack overflow is an
+//!             observed outcome (Crash) and not the end of the harness; a crash at
+//!             depth >= 5000 is tagged F20 (open known finding), any other crash is not
 //!   shell     tree texts through the whole shell on the simulated OS:
 //!             `args "$((text))"` after assigning the variables, then the
 //!             variables read back (yash-semantics expansion/initial/arith.rs)
@@ -509,6 +514,61 @@ fn unicode_text(r: &mut Rng, len: usize) -> String {
     s
 }
 
+/// The texts of the depth stream (the same as `deep_text` in coq/C03/Run.v).
+fn deep_text(kind: u32, n: usize) -> String {
+    match kind {
+        0 => format!("{}1{}", "(".repeat(n), ")".repeat(n)),
+        1 => format!("{}1", "!".repeat(n)),
+        2 => format!("{}1{}", "1?".repeat(n), ":0".repeat(n)),
+        _ => panic!("unknown kind {kind}"),
+    }
+}
+
+/// Runs `deep_text(kind, n)` in a child process; the Coq term of type `deep_out`,
+/// a text for humans, and whether the child crashed.
+fn run_deep(kind: u32, n: usize) -> (String, String, bool) {
+    use std::io::Read;
+    use std::os::unix::process::ExitStatusExt;
+    use std::process::{Command, Stdio};
+    let exe = std::env::current_exe().expect("current_exe");
+    let mut child = Command::new(exe)
+        .args(["--opt", &format!("deep={kind}:{n}")])
+        .stdin(Stdio::null())
+        .stdout(Stdio::piped())
+        .stderr(Stdio::null())
+        .spawn()
+        .expect("spawn the child process");
+    let start = std::time::Instant::now();
+    let status = loop {
+        match child.try_wait().expect("try_wait") {
+            Some(st) => break Some(st),
+            None if start.elapsed().as_secs() >= 120 => {
+                let _ = child.kill();
+                let _ = child.wait();
+                break None;
+            }
+            None => std::thread::sleep(std::time::Duration::from_millis(5)),
+        }
+    };
+    let mut out = String::new();
+    if let Some(mut o) = child.stdout.take() {
+        let _ = o.read_to_string(&mut out);
+    }
+    match status {
+        None => ("DTimeout".into(), "timeout".into(), false),
+        Some(st) if st.success() => {
+            let mut lines = out.lines();
+            let term = lines.next().expect("the child printed nothing").to_string();
+            let shown = lines.next().unwrap_or("").to_string();
+            (format!("(DOut {term})"), shown, false)
+        }
+        Some(st) => {
+            let sig = st.signal().unwrap_or(0);
+            (format!("(DCrash {})", coq::n(sig as u64)), format!("CRASH signal {sig} ({st})"), true)
+        }
+    }
+}
+
 fn lit(v: i128) -> String {
     if v == -9223372036854775808 {
         "m".into()
@@ -519,12 +579,13 @@ fn lit(v: i128) -> String {
 
 fn main() {
     let args = Args::parse();
-    if let Some(n) = args.opt("deep") {
-        // manual probe of the recursion depth (not part of the check)
-        let n: usize = n.parse().expect("deep=N");
-        let text = format!("{}1{}", "(".repeat(n), ")".repeat(n));
-        let mut env: HashMap<String, String> = HashMap::new();
-        println!("{:?}", yash_arith::eval(&text, &mut env).map_err(|e| format!("{:?}", e.cause)));
+    if let Some(spec) = args.opt("deep") {
+        // child mode of the depth stream: `--opt deep=KIND:N`; evaluates the text on
+        // the main thread (inherited stack limit) and prints the outcome
+        let (kind, n) = spec.split_once(':').expect("deep=KIND:N");
+        let text = deep_text(kind.parse().expect("kind"), n.parse().expect("n"));
+        let (term, shown, _) = run_impl(&text, &Vars::new());
+        println!("{term}\n{shown}");
         return;
     }
     let mut rng = Rng::new(args.seed);
@@ -718,6 +779,27 @@ fn main() {
         t.render(1, keep, &mut r, &mut s);
         let vars = random_vars(&mut r);
         emit(&mut w, "tree", &s, &vars);
+    }
+
+    // -- depth -------------------------------------------------------------------------
+    for kind in 0u32..3 {
+        for n in [100usize, 1000, 5000, 20000, 100000] {
+            let (out, shown, crashed) = run_deep(kind, n);
+            let term = format!("(KDeep {} {} {})", coq::n(kind as u64), coq::n(n as u64), out);
+            let what = ["parentheses", "unary operators", "conditionals"][kind as usize];
+            let json = format!(
+                "{{\"stream\":\"depth\",\"text\":{},\"nesting\":{},\"of\":{},\"impl\":{}}}",
+                json_str(&deep_text(kind, 3).replace("111", "1")),
+                n,
+                json_str(what),
+                json_str(&shown)
+            );
+            w.count("stream:depth");
+            w.count(if crashed { "depth_answer:crash" } else { "depth_answer:returned" });
+            // F20: the open finding is a crash on *very* deep nesting only
+            let tags: &[&str] = if crashed && n >= 5000 { &["F20"] } else { &[] };
+            w.push(&term, &json, tags, Some(format!("deep {kind} {n}")));
+        }
     }
 
     // -- shell -------------------------------------------------------------------------
